@@ -1226,7 +1226,10 @@ class Interp:
                 return [wrap(v.sel(i)) for i in range(n)]
         if isinstance(v, SOpaque) and getattr(v, "pytype", None) is None:
             # components of an opaque tuple result
-            return [SOpaque(self.ctx.const(f"{v.e}_part{i}", v.e.sort())) for i in range(n)]
+            parts = [SOpaque(self.ctx.const(f"{v.e}_part{i}", v.e.sort())) for i in range(n)]
+            for i, r in enumerate(parts):
+                SIGS[id(r)] = (r, ("part", i, sig_of(v)))
+            return parts
         raise Unsupported(f"unpack of {type(v).__name__}")
 
     def setattr(self, obj, name, v, f):
